@@ -1006,6 +1006,56 @@ fn run_c18_case(rep: &mut Report, ws: &Workspace, case_seed: u64) {
             }
         }
     }
+    // accept-and-resolve for module accessors: the inserted text must be the accessor the
+    // file knows the module by (its alias, if it has one) - judged through a qualified call
+    for h in &ws.holes {
+        if h.range == (0, 0) {
+            continue;
+        }
+        let file = loaded.file_by_path(&ws.path_of(h.module)).unwrap();
+        let Outcome::Ok(Ok(Some(items))) = panicmon::guard(|| an.completions(FilePos::new(file, TextSize::from(h.range.1 as u32)), None)) else { continue };
+        for (label, target) in &h.accessors {
+            if h.visible.contains_key(label) {
+                continue; // a value of that spelling shadows the accessor at this hole
+            }
+            let Some(it) = items.iter().find(|i| i.label.as_str() == label.as_str() && i.kind == ide::CompletionItemKind::Module) else { continue };
+            let Some(f) = ws.decls.iter().find(|d| d.module == *target && d.kind == SymKind::Function && d.public) else { continue };
+            let text = loaded.text(file);
+            let sr = (usize::from(it.source_range.start()), usize::from(it.source_range.end()));
+            if sr.1 > text.len() || sr.0 > sr.1 {
+                continue;
+            }
+            let t2 = format!("{}{}.{}{}", &text[..sr.0], it.replace, f.name, &text[sr.1..]);
+            let mut files2 = files.clone();
+            for fl in files2.iter_mut() {
+                if fl.0 == ws.path_of(h.module) {
+                    fl.1 = t2.clone();
+                }
+            }
+            let l2 = ws::load_single(&files2);
+            let an2 = l2.host.snapshot();
+            let f2 = l2.file_by_path(&ws.path_of(h.module)).unwrap();
+            let want_file = l2.file_by_path(&ws.path_of(*target)).unwrap().0;
+            rep.count("accept_and_resolve_checks[module accessor]", 1);
+            let aliased = !ws.path_of(*target).ends_with(&format!("/{label}.gleam"));
+            if aliased {
+                rep.count("accept_and_resolve_checks[aliased module accessor]", 1);
+            }
+            let mut rp = replay.clone();
+            rp["hole"] = json!({"module": h.module, "range": [h.range.0, h.range.1], "name": h.name, "accessor": label});
+            match sema::goto_at(&an2, f2, sr.0) {
+                Goto::One(t) if t.file == want_file && t.focus == (0, 0) => {}
+                Goto::Panicked(_) => {}
+                other => {
+                    rep.violate(
+                        format!("completion-accepted-name-does-not-resolve:ModuleAccessor{}", if aliased { ":aliased" } else { "" }),
+                        format!("accepting module accessor `{label}` at hole `{}` inserts {:?}; goto on it in `{}.{}` gives {:?}, expected the module file {want_file}", h.name, it.replace, it.replace, f.name, other),
+                        rp,
+                    );
+                }
+            }
+        }
+    }
     // dot completions at qualified uses and field accesses
     for (mi, p) in ws.printed.iter().enumerate() {
         let file = loaded.file_by_path(&ws.path_of(mi)).unwrap();
